@@ -22,10 +22,19 @@ VARS_MENU = {
     R + "/pipe/v_pipe.py": (["$ROOT", "pipe", "v_pipe.py"], True),
     R + "/allowed/nonexistent.py": (["$ROOT", "allowed", "nonexistent.py"], False),
     R + "/allowed": (["$ROOT", "allowed"], False),                                 # the base itself (equality branch)
+    # around the pipeline file's own directory (pipe/ or pipe/sub/deep/)
+    R + "/pipe/sub/deep/v_deep.py": (["$ROOT", "pipe", "sub", "deep", "v_deep.py"], True),
+    R + "/pipe/sub/deep/below/v_below.py": (["$ROOT", "pipe", "sub", "deep", "below", "v_below.py"], True),
+    R + "/pipe/sub/deep/../../v_pipe.py": (["$ROOT", "pipe", "v_pipe.py"], True),        # above, through ..
+    R + "/pipe/sub/deep/link_up.py": (["$ROOT", "pipe", "v_pipe.py"], True),             # symlink to above
+    R + "/pipe/link_out.py": (["$ROOT", "outside", "v_out.py"], True),                   # symlink out of pipe/
+    R + "/pipe/../outside/v_out.py": (["$ROOT", "outside", "v_out.py"], True),
+    R + "/pipealias/v_pipe.py": (["$ROOT", "pipe", "v_pipe.py"], True),
 }
 EXEC_ID = {"in": ["$ROOT", "allowed", "v_in.py"], "sub": ["$ROOT", "allowed", "sub", "v_sub.py"],
            "pfx": ["$ROOT", "allowed_evil", "v_pfx.py"], "out": ["$ROOT", "outside", "v_out.py"],
-           "pipe": ["$ROOT", "pipe", "v_pipe.py"]}
+           "pipe": ["$ROOT", "pipe", "v_pipe.py"], "deep": ["$ROOT", "pipe", "sub", "deep", "v_deep.py"],
+           "below": ["$ROOT", "pipe", "sub", "deep", "below", "v_below.py"]}
 BASES_MENU = {
     R + "/allowed": ["$ROOT", "allowed"], R + "/allowed/": ["$ROOT", "allowed"], R + "/alias": ["$ROOT", "allowed"],
     R + "/allowed/sub": ["$ROOT", "allowed", "sub"], R + "/outside": ["$ROOT", "outside"],
@@ -33,9 +42,19 @@ BASES_MENU = {
     R + "/allowed/v_in.py": ["$ROOT", "allowed", "v_in.py"], R + "/allowed/linkdir": ["$ROOT", "outside"],
 }
 SRC_PIPE = R + "/pipe/pipeline.yml"
+SRC_DEEP = R + "/pipe/sub/deep/pipeline.yml"
+# strings by which a pipeline file is handed to the loader -> physical location
+SRC_STRINGS = {
+    SRC_PIPE: ["$ROOT", "pipe", "pipeline.yml"],
+    SRC_DEEP: ["$ROOT", "pipe", "sub", "deep", "pipeline.yml"],
+    R + "/pipealias/pipeline.yml": ["$ROOT", "pipe", "pipeline.yml"],
+    R + "/pipe/sub/../pipeline.yml": ["$ROOT", "pipe", "pipeline.yml"],
+}
+PIPE_DIRS = {"top": R + "/pipe", "deep": R + "/pipe/sub/deep"}
 REAL = {k: v[0] for k, v in VARS_MENU.items()}
 REAL.update(BASES_MENU)
-REAL[SRC_PIPE] = ["$ROOT", "pipe", "pipeline.yml"]
+REAL.update(SRC_STRINGS)
+REAL[R + "/pipe/sub/deep"] = ["$ROOT", "pipe", "sub", "deep"]
 LOADABLE = [k for k, v in VARS_MENU.items() if v[1]]
 
 FILE_OK = [R + "/src/values_a.txt", R + "/src/values_b.txt"]
@@ -145,11 +164,54 @@ def wrap(item, depth, wrapper, rng, mode):
     return item
 
 
+FILE_ROUTES = ("yaml_src", "resolver", "resolve_file", "resolve_dir")
+RESOLVER_ROUTES = ("resolver", "resolve_file", "resolve_dir")
+
+
+def routes(rng=None):
+    """every way a pipeline file reaches the loader: (entry, loc, src string, spec, siblings)"""
+    out = []
+    for loc in ("top", "deep"):
+        for entry in ("yaml_src", "resolver", "resolve_file"):
+            out.append((entry, loc, None, None, False))
+        for spec in (R + "/pipe", R + "/pipe/", R + "/pipe/*", R + "/pipe//"):
+            for sib in (False, True):
+                out.append(("resolve_dir", loc, None, spec, sib))
+    # the file named through a symlinked directory / a dot-dot path
+    for entry in ("yaml_src", "resolver", "resolve_file"):
+        out.append((entry, "top", R + "/pipealias/pipeline.yml", None, False))
+        out.append((entry, "top", R + "/pipe/sub/../pipeline.yml", None, False))
+    out.append(("resolve_dir", "top", R + "/pipealias/pipeline.yml", R + "/pipealias", False))
+    out.append(("resolve_dir", "top", R + "/pipealias/pipeline.yml", R + "/pipealias/*", True))
+    out.append(("resolve_dir", "deep", None, R + "/pipe/sub", False))
+    out.append(("resolve_dir", "deep", None, R + "/pipe/sub/deep/", False))
+    return out
+
+
+# vars paths relative to the pipeline file's directory: class -> candidates per location
+VARS_BY_CLASS = {
+    "top": {"inside": [R + "/pipe/v_pipe.py", R + "/pipe/sub/deep/v_deep.py", R + "/pipealias/v_pipe.py"],
+            "outside": [R + "/outside/v_out.py", R + "/allowed/v_in.py"],
+            "above": [R + "/pipe/../outside/v_out.py", R + "/allowed/../outside/v_out.py"],
+            "symlinked": [R + "/pipe/link_out.py", R + "/allowed/link_out.py"]},
+    "deep": {"inside": [R + "/pipe/sub/deep/v_deep.py", R + "/pipe/sub/deep/below/v_below.py"],
+             "outside": [R + "/outside/v_out.py", R + "/allowed/v_in.py"],
+             "above": [R + "/pipe/sub/deep/../../v_pipe.py", R + "/pipe/v_pipe.py"],
+             "symlinked": [R + "/pipe/sub/deep/link_up.py", R + "/pipe/link_out.py"]},
+}
+
+
 STD_REAL = sorted([k, v] for k, v in REAL.items())
 
 
-def mk_case(doc, args, entry, env, phs, explicit=False):
+def mk_case(doc, args, entry, env, phs, explicit=False, loc="top", src=None, spec=None, siblings=False):
     c = {"doc": doc, "args": args, "entry": entry, "env": env, "phs": phs}
+    if entry in FILE_ROUTES:
+        c["loc"] = loc
+        c["src"] = src or (SRC_DEEP if loc == "deep" else SRC_PIPE)
+        if entry == "resolve_dir":
+            c["spec"] = spec or R + "/pipe"
+            c["siblings"] = siblings
     if explicit:
         c["real"] = STD_REAL      # carried explicitly: checked against os.path.realpath and against the Coq constant
     return c
@@ -284,6 +346,39 @@ def gen(tier, rng):
                    "postprocessing": [inject({"type": "nest", "items": [inner]}, rng, mode)]}
             out.append(mk_case(doc, {"ext": False, "tv": rng.random() < 0.3, "paths": rng.choice(PATHS_ARGS)},
                                rng.choice(["dict", "yaml_src"]), rng.choice(envs_tv), ["a"]))
+    # ---- R: how the pipeline file reaches the loader x where the vars file lies relative to it x environment ----
+    all_routes = routes()
+    slots3 = [("post", 0), ("fin", 0), ("fin", 1)]
+    for (entry, loc, src, spec, sib) in all_routes:
+        for cls, cands in VARS_BY_CLASS[loc].items():
+            for ev in (ENV4 if not quick else [None, "1", rng.choice(["0", "true"])]):
+                for slot, depth in (slots3 if not quick else [rng.choice(slots3)]):
+                    vp = rng.choice(cands)
+                    mode = rng.choice(["none", "tpl", "tpl"])
+                    item = inject(tpl(slot, vp, rng), rng, mode)
+                    doc = {"transformations": [{"type": "wildcard_placeholders"}]}
+                    if slot == "post":
+                        doc["postprocessing"] = [item]
+                    else:
+                        doc["finalizers"] = [wrap(item, depth, nest_fin, rng, mode)]
+                    if rng.random() < 0.3:
+                        doc["priority"] = rng.choice([0, 10])
+                    a = {"ext": False, "tv": entry == "yaml_src" and rng.random() < 0.4,
+                         "paths": rng.choice([None, None, None, [R + "/allowed"], [R + "/pipe"]]) if entry == "yaml_src" else None}
+                    out.append(mk_case(doc, a, entry, {"ext": None, "tv": ev}, ["a"], loc=loc, src=src, spec=spec, siblings=sib))
+    # the same document through every route without a file (from_dict, from_yaml without source_path)
+    for entry in ("dict", "yaml"):
+        for cls, cands in VARS_BY_CLASS["top"].items():
+            for ev in ENV4:
+                doc = {"transformations": [{"type": "wildcard_placeholders"}], "finalizers": [tpl("fin", rng.choice(cands), rng)]}
+                out.append(mk_case(doc, {"ext": False, "tv": False, "paths": None}, entry, {"ext": None, "tv": ev}, ["a"]))
+    # external sources through the file routes (no opt-in argument exists on the resolver)
+    for (entry, loc, src, spec, sib) in all_routes:
+        if quick and rng.random() < 0.5:
+            continue
+        doc = {"transformations": [inject(ext_item(rng), rng, rng.choice(["none", "all"]))]}
+        out.append(mk_case(doc, {"ext": entry == "yaml_src" and rng.random() < 0.5, "tv": False, "paths": None}, entry,
+                           {"ext": rng.choice(ENV4), "tv": None}, ["a"], loc=loc, src=src, spec=spec, siblings=sib))
     # ---- C: hostile environment values for both gates ----
     for v in ENV_HOSTILE + ENV4:
         doc = {"transformations": [ext_item(rng, "file")]}
@@ -332,8 +427,9 @@ def gen(tier, rng):
         out.append(mk_case(top, {"ext": False, "tv": False, "paths": None}, "dict", {"ext": None, "tv": None}, []))
     # ---- F: random documents ----
     for _ in range(900 if quick else 14000):
-        out.append(mk_case(random_doc(rng), rand_args(rng), rng.choice(["dict", "dict", "yaml", "yaml_src", "resolver"]),
-                           rand_env(rng), rng.choice(PHS)))
+        entry, loc, src, spec, sib = rng.choice([("dict", "top", None, None, False)] * 8 + [("yaml", "top", None, None, False)] * 4 + all_routes)
+        out.append(mk_case(random_doc(rng), rand_args(rng), entry, rand_env(rng), rng.choice(PHS),
+                           loc=loc, src=src, spec=spec, siblings=sib))
     return out
 
 
@@ -381,14 +477,15 @@ def c_args(a):
 
 
 def spec_args(case):
-    """what the property counts as granted by the caller / as base directories in force"""
+    """what the property counts as granted by the caller / as base directories in force: every route on which the
+    pipeline comes from a file puts the directory of that file in force unless the caller named directories"""
     a = case["args"]
-    if case["entry"] == "resolver":
+    if case["entry"] in RESOLVER_ROUTES:
         ext, tv, paths = False, False, None
     else:
         ext, tv, paths = a["ext"], a["tv"], a["paths"]
-    if paths is None and case["entry"] in ("yaml_src", "resolver"):
-        paths = [R + "/pipe"]      # derived from the pipeline file's location
+    if paths is None and case["entry"] in FILE_ROUTES:
+        paths = [PIPE_DIRS[case.get("loc", "top")]]      # physical directory of the pipeline file
     return {"ext": ext, "tv": tv, "paths": paths}
 
 
@@ -485,7 +582,8 @@ def to_coq(case, r):
         return None      # harness failure: reported by the runner
     doc = case["doc"]
     urls = find_all(doc, "url", [])
-    entry = {"dict": 0, "yaml": 1, "yaml_src": 2, "resolver": 3}[case["entry"]]
+    entry = {"dict": 0, "yaml": 1, "yaml_src": 2, "resolver": 3, "resolve_file": 3, "resolve_dir": 3}[case["entry"]]
+    extra = 1 if case.get("siblings") else 0      # the sibling file with one set_state item, merged after the document
     tl = [c_effect(e, urls) for e in r["trace"] if e[0] == "load"]
     tc = [c_effect(e, urls) for e in r["trace"] if e[0] == "conv"]
     conv = c_class(r["conv"])
@@ -502,7 +600,8 @@ def to_coq(case, r):
         f"c_doc := {yv(doc)}",
         f"c_args := {c_args(case['args'])}",
         f"c_entry := {entry}",
-        f"c_src := {S(SRC_PIPE)}",
+        f"c_src := {S(case.get('src') or SRC_PIPE)}",
+        f"c_extra := {extra}%nat",
         f"c_phs := {strs(case['phs'])}",
         f"c_sargs := {c_args(spec_args(case))}",
         f"i_load := {c_class(r['load'])}",
@@ -547,7 +646,8 @@ def mutate(case, rng):
         elif r < 0.5:
             c["env"] = {"ext": None, "tv": None}
         elif r < 0.7:
-            c["entry"] = rng.choice(["dict", "yaml", "yaml_src", "resolver"])
+            e, loc, src, spec, sib = rng.choice(routes())
+            c = mk_case(c["doc"], c["args"], e, c["env"], c["phs"], loc=loc, src=src, spec=spec, siblings=sib)
         else:
             c["args"]["paths"] = rng.choice(PATHS_ARGS)
         if rng.random() < 0.5:
@@ -568,7 +668,9 @@ PROPERTY = Property(
          "x {file, command (string and argv), http} placeholder sources and template items with a vars file "
          "x caller arguments on/off, 11 choices of allowed base directories x environment {unset,0,1,true} + 13 hostile values "
          "x vars paths inside / in a subdirectory / outside / symlinked file / symlinked directory / dot-dot / prefix-sharing sibling / "
-         "through an alias of the base / missing x entry points from_dict, from_yaml, from_yaml(source_path), resolver; "
+         "through an alias of the base / missing x every route to the loader: from_dict, from_yaml, from_yaml(source_path), resolve_pipeline(file), "
+         "resolver.resolve([file]) and resolver.resolve([dir | dir/ | dir/* | symlinked dir]) with the file at the top or two levels down and with sibling "
+         "pipeline files, crossed with vars files inside / outside / above (..) / symlinked out of the pipeline file's own directory; "
          "exhaustive over (item kind x depth x injection x opt-in x env) and sampled over (vars path x base directories), plus random documents; "
          "effects observed with sys.addaudithook (subprocess.Popen, os.system, open, socket.*, exec) in the implementation process; "
          "network refused inside the hook. non-trivial = a smuggled key is present, or a gate fired, or an effect happened",
